@@ -1,1 +1,232 @@
-/-! C17 — property theorems (stub; no obligations yet) -/
+import Ypv.Lemmas.Save
+/-!
+# C17 — a failing or interrupted tool run never loses the user's file
+
+The model (`Ypv/Model/Save.lean`) describes yaml-set, yaml-merge and eyaml-rotate-keys as phases
+(parse arguments → validate → load → query → check → apply → render → save) and the save as a list of
+primitive file-system steps over an abstract file system `path ↦ optional bytes`.
+
+* `prewrite_exit_has_no_io` — every run of yaml-set / yaml-merge that ends with a non-zero status in
+  a phase before the save has performed read-only steps only; the file system afterwards is the
+  file system before (target byte-for-byte unchanged, no output file, no backup file).
+* `output_never_replaces_existing` — yaml-merge `--output o` with `o` present exits non-zero
+  without a single writing step.
+* `backup_is_preimage` — after a successful `--backup` save the `.bak` file holds exactly the
+  bytes the target held before and the target holds the new text; whatever the `.bak` path held
+  before (stale backup or nothing).
+* `single_fault_keeps_original` — cut the `--backup` save at *any* step `k` (that step fails, having
+  no effect), let the unwinding flush anything to, and close, the files then open for writing:
+  the target or the backup holds the complete original bytes.  For every writer (yaml-set YAML,
+  yaml-set JSON, yaml-merge --overwrite, eyaml-rotate-keys), every chunking of the backup copy and
+  of the new text (so writes of arbitrary length, split arbitrarily — a short write followed by an
+  error is one of those splittings), every previous state of the `.bak` path.
+* `single_fault_keeps_original_restore` — the same for yaml-set's `except AssertionError` path
+  (dump interrupted, temporary copy written back, backup removed).
+
+Limits: a crash of the interpreter or a power loss in the middle of a `write` (torn pages,
+unflushed directory entries) is below the system-call abstraction of the model.
+-/
+namespace Ypv.C17
+open Ypv Ypv.Save
+
+/-- Every run of yaml-set ending non-zero before the save phase has made read-only steps only, and
+the file system is unchanged. -/
+theorem prewrite_exit_has_no_io_set (o : Oracle) (fs : FS) (json backup : Bool) (t : Str)
+    (oc nc rc : List Bytes) :
+    let r := runSet o fs json backup t oc nc rc
+    r.exit ≠ 0 → r.phase.beforeSave = true →
+      (∀ s ∈ r.trace, s.writes = none) ∧ run fs r.trace = fs := by
+  intro r hne hph
+  have key : ∀ s ∈ r.trace, s.writes = none := by
+    revert hne hph
+    show (runSet o fs json backup t oc nc rc).exit ≠ 0 → (runSet o fs json backup t oc nc rc).phase.beforeSave = true →
+      ∀ s ∈ (runSet o fs json backup t oc nc rc).trace, s.writes = none
+    rcases o with ⟨a1, a2, a3, a4, a5, a6, a7, a8, a9⟩
+    cases a1 <;> cases a2 <;> cases a3 <;> cases a4 <;> cases a5 <;> cases a6 <;> cases a8 <;> cases json <;>
+      simp [runSet, Phase.beforeSave, Step.writes]
+  exact ⟨key, run_readOnly _ _ key⟩
+
+/-- yaml-set: a non-zero exit happens before the save, or is the restore exit (status 3). -/
+theorem set_nonzero_exit_phase (o : Oracle) (fs : FS) (json backup : Bool) (t : Str)
+    (oc nc rc : List Bytes) :
+    let r := runSet o fs json backup t oc nc rc
+    r.exit ≠ 0 → r.phase.beforeSave = true ∨ (r.exit = 3 ∧ r.phase = .save ∧ json = false) := by
+  show (runSet o fs json backup t oc nc rc).exit ≠ 0 →
+    (runSet o fs json backup t oc nc rc).phase.beforeSave = true ∨
+    ((runSet o fs json backup t oc nc rc).exit = 3 ∧ (runSet o fs json backup t oc nc rc).phase = .save ∧ json = false)
+  rcases o with ⟨a1, a2, a3, a4, a5, a6, a7, a8, a9⟩
+  cases a1 <;> cases a2 <;> cases a3 <;> cases a4 <;> cases a5 <;> cases a6 <;> cases a8 <;> cases json <;>
+    simp [runSet, Phase.beforeSave]
+
+/-- Every run of yaml-merge ending non-zero has made read-only steps only, and the file system
+is unchanged (every non-zero exit of yaml-merge precedes the save). -/
+theorem prewrite_exit_has_no_io_merge (o : Oracle) (fs : FS) (dest : Dest) (ins : List Str)
+    (mergeExit : Nat) (oc nc : List Bytes) :
+    let r := runMerge o fs dest ins mergeExit oc nc
+    r.exit ≠ 0 → r.phase.beforeSave = true ∧
+      (∀ s ∈ r.trace, s.writes = none) ∧ run fs r.trace = fs := by
+  intro r hne
+  have key : r.phase.beforeSave = true ∧ ∀ s ∈ r.trace, s.writes = none := by
+    revert hne
+    show (runMerge o fs dest ins mergeExit oc nc).exit ≠ 0 →
+      (runMerge o fs dest ins mergeExit oc nc).phase.beforeSave = true ∧
+      ∀ s ∈ (runMerge o fs dest ins mergeExit oc nc).trace, s.writes = none
+    rcases o with ⟨a1, a2, a3, a4, a5, a6, a7, a8, a9⟩
+    cases dest with
+    | stdout =>
+      cases a1 <;> cases a2 <;> cases a3 <;> cases a6 <;> cases a7 <;>
+        simp [runMerge, mergeValidateSteps, Phase.beforeSave, Step.writes] <;>
+        (try (intro s x _ h; rcases h with rfl | rfl <;> rfl))
+    | output out =>
+      cases hx : (fs out).isSome <;>
+      cases a1 <;> cases a2 <;> cases a3 <;> cases a6 <;> cases a7 <;>
+        simp [runMerge, mergeValidateSteps, Phase.beforeSave, Step.writes, hx] <;>
+        (try (intro s x _ h; rcases h with rfl | rfl <;> rfl))
+    | overwrite t b =>
+      cases a1 <;> cases a2 <;> cases a3 <;> cases a6 <;> cases a7 <;>
+        simp [runMerge, mergeValidateSteps, Phase.beforeSave, Step.writes] <;>
+        (try (intro s x _ h; rcases h with rfl | rfl <;> rfl))
+  exact ⟨key.1, key.2, run_readOnly _ _ key.2⟩
+
+/-- C17, first sentence: a yaml-set or yaml-merge run that ends non-zero before writing has
+changed nothing — not the target, not an output file, not a backup file. -/
+theorem prewrite_exit_has_no_io :
+    (∀ (o : Oracle) (fs : FS) (json backup : Bool) (t : Str) (oc nc rc : List Bytes),
+      (runSet o fs json backup t oc nc rc).exit ≠ 0 →
+      (runSet o fs json backup t oc nc rc).phase.beforeSave = true →
+      run fs (runSet o fs json backup t oc nc rc).trace = fs) ∧
+    (∀ (o : Oracle) (fs : FS) (dest : Dest) (ins : List Str) (me : Nat) (oc nc : List Bytes),
+      (runMerge o fs dest ins me oc nc).exit ≠ 0 →
+      run fs (runMerge o fs dest ins me oc nc).trace = fs) :=
+  ⟨fun o fs json backup t oc nc rc h1 h2 => (prewrite_exit_has_no_io_set o fs json backup t oc nc rc h1 h2).2,
+   fun o fs dest ins me oc nc h => (prewrite_exit_has_no_io_merge o fs dest ins me oc nc h).2.2⟩
+
+/-- yaml-merge `--output out` never replaces an existing file: with `out` present the run ends
+non-zero and the file system is unchanged — whatever the other inputs decide. -/
+theorem output_never_replaces_existing (o : Oracle) (fs : FS) (out : Str) (ins : List Str)
+    (me : Nat) (oc nc : List Bytes) (x : Bytes) (hx : fs out = some x) :
+    let r := runMerge o fs (.output out) ins me oc nc
+    r.exit ≠ 0 ∧ run fs r.trace = fs ∧ run fs r.trace out = some x := by
+  intro r
+  have hne : r.exit ≠ 0 := by
+    show (runMerge o fs (.output out) ins me oc nc).exit ≠ 0
+    rcases o with ⟨a1, a2, a3, a4, a5, a6, a7, a8, a9⟩
+    cases a1 <;> cases a2 <;> simp [runMerge, mergeValidateSteps, hx]
+  have h := (prewrite_exit_has_no_io_merge o fs (.output out) ins me oc nc hne).2.2
+  exact ⟨hne, h, by rw [h]; exact hx⟩
+
+/-- After a successful `--backup` save the backup holds the pre-image and the target the new
+text, for every writer and whatever the `.bak` path held before. -/
+theorem backup_is_preimage (fs : FS) (saw : Bool) (w : Writer) (t : Str) (orig : Bytes) (oc nc : List Bytes)
+    (_ht : fs t = some orig) (hoc : oc.flatten = orig) :
+    run fs (saveSteps saw w true t oc nc) (bakOf t) = some orig ∧
+    run fs (saveSteps saw w true t oc nc) t = some nc.flatten := by
+  simp only [saveSteps, if_true]
+  rw [run_append]
+  constructor
+  · rw [run_frame (bakOf t) _ _ (fun s hs => by
+      rcases writePart_writes w t nc s hs with h | h
+      · rw [h]; simp
+      · rw [h]; intro e; exact bakOf_ne t (Option.some.inj e))]
+    rw [run_backupSteps, hoc]
+  · exact run_writePart _ _ _ _
+
+/-- C17, last sentence.  `runFault fs steps k cl`: steps `0 … k-1` succeed, step `k` fails, then
+the unwinding performs `cl` (flushes to / closes of files open for writing at that moment).
+No bound on `k`, on the sizes or on the number of chunks. -/
+theorem single_fault_keeps_original (fs : FS) (saw : Bool) (w : Writer) (t : Str) (orig : Bytes)
+    (oc nc : List Bytes) (ht : fs t = some orig) (hoc : oc.flatten = orig)
+    (k : Nat) (cl : List Step)
+    (hcl : Cleanup ((saveSteps saw w true t oc nc).take k) cl) :
+    runFault fs (saveSteps saw w true t oc nc) k cl t = some orig ∨
+    runFault fs (saveSteps saw w true t oc nc) k cl (bakOf t) = some orig := by
+  simp only [saveSteps, if_true] at *
+  exact two_phase fs t (bakOf t) orig _ _ (bakOf_ne t) ht (backupSteps_writes saw t oc)
+    (writePart_writes w t nc) (openW_backupSteps saw t oc) (by rw [run_backupSteps, hoc]) k cl hcl
+
+/-- The same for yaml-set's restore path (`except AssertionError`): dump interrupted after the
+chunks `nc`, the temporary copy (chunks `rc`) written back, then the backup removed. -/
+theorem single_fault_keeps_original_restore (fs : FS) (saw : Bool) (t : Str) (orig : Bytes)
+    (oc nc rc : List Bytes) (ht : fs t = some orig) (hoc : oc.flatten = orig) (hrc : rc.flatten = orig)
+    (k : Nat) (cl : List Step)
+    (hcl : Cleanup ((restoreSteps saw true t oc nc rc).take k) cl) :
+    runFault fs (restoreSteps saw true t oc nc rc) k cl t = some orig ∨
+    runFault fs (restoreSteps saw true t oc nc rc) k cl (bakOf t) = some orig := by
+  simp only [restoreSteps, if_true] at *
+  generalize hR : ([Step.openRead t, .creatTrunc t] ++ nc.map (.append t) ++ [.close t] ++ writeSteps t rc) = R at *
+  have hRw : ∀ s ∈ R, s.writes = none ∨ s.writes = some t := by
+    subst hR
+    intro s hs
+    simp only [List.mem_append, List.mem_cons, List.mem_map, List.not_mem_nil, or_false] at hs
+    rcases hs with (((rfl | rfl) | ⟨c, _, rfl⟩) | rfl) | hs
+    · simp [Step.writes]
+    · simp [Step.writes]
+    · simp [Step.writes]
+    · simp [Step.writes]
+    · exact writeSteps_writes _ _ _ hs
+  by_cases hk : k ≤ (backupSteps saw t oc ++ R).length
+  · -- the fault precedes the final `unlink bak`
+    have hpre : (backupSteps saw t oc ++ R ++ [Step.unlink (bakOf t)]).take k = (backupSteps saw t oc ++ R).take k := by
+      rw [List.take_append]
+      have : k - (backupSteps saw t oc ++ R).length = 0 := by omega
+      rw [this]; simp
+    unfold runFault
+    rw [hpre] at hcl ⊢
+    exact two_phase fs t (bakOf t) orig _ _ (bakOf_ne t) ht (backupSteps_writes saw t oc) hRw
+      (openW_backupSteps saw t oc) (by rw [run_backupSteps, hoc]) k cl hcl
+  · -- everything ran: the target has been restored
+    left
+    have hpre : (backupSteps saw t oc ++ R ++ [Step.unlink (bakOf t)]).take k = backupSteps saw t oc ++ R ++ [Step.unlink (bakOf t)] := by
+      apply List.take_of_length_le
+      simp only [List.length_append, List.length_cons, List.length_nil] at hk ⊢
+      omega
+    unfold runFault
+    rw [hpre] at hcl ⊢
+    have hopen : openW (backupSteps saw t oc ++ R ++ [Step.unlink (bakOf t)]) = [] := by
+      unfold openW
+      rw [openWFrom_append, openWFrom_append]
+      have h1 : openWFrom [] (backupSteps saw t oc) = [] := openW_backupSteps saw t oc
+      rw [h1]; subst hR
+      simp [openWFrom_append, openWFrom, openWFrom_appends, openW_writeSteps]
+    rw [cleanup_nil_of_closed _ _ hcl hopen, run_nil, run_append, run_append]
+    rw [run_frame t [Step.unlink (bakOf t)] _ (by
+      intro s hs; simp at hs; subst hs; simp [Step.writes]; exact fun e => bakOf_ne t e.symm)]
+    subst hR
+    rw [run_append, run_writeSteps, hrc]
+
+/-! ## The hypotheses are met, and the conclusions are not vacuous -/
+
+private def T : Str := "f.yaml".toList
+private def fs0 : FS := fun p => if p = T then some [1, 2, 3] else if p = bakOf T then some [9] else none
+
+/-- A concrete `--backup` save over a stale `.bak`, backup copied in two chunks, new text in two. -/
+example : (saveSteps true .setYaml true T [[1], [2, 3]] [[7], [8]]).length = 14 := by decide +kernel
+
+/-- cut after the target has been truncated and one chunk written, the rest flushed on unwinding:
+the target is lost, the backup holds the original. -/
+example : runFault fs0 (saveSteps true .setYaml true T [[1], [2, 3]] [[7], [8]]) 12 [.append T [8]] T = some [7, 8]
+    ∧ runFault fs0 (saveSteps true .setYaml true T [[1], [2, 3]] [[7], [8]]) 12 [.append T [8]] (bakOf T) = some [1, 2, 3] := by
+  decide +kernel
+
+/-- cut in the middle of the backup copy: the backup is incomplete, the target intact. -/
+example : runFault fs0 (saveSteps true .setYaml true T [[1], [2, 3]] [[7], [8]]) 5 [] T = some [1, 2, 3]
+    ∧ runFault fs0 (saveSteps true .setYaml true T [[1], [2, 3]] [[7], [8]]) 5 [] (bakOf T) = some [1] := by
+  decide +kernel
+
+/-- Without `--backup` the guarantee does not hold (the property does not claim it):
+a fault after the truncation loses the file. -/
+example : runFault fs0 (saveSteps true .setJson false T [] [[7], [8]]) 1 [] T = some []
+    ∧ runFault fs0 (saveSteps true .setJson false T [] [[7], [8]]) 1 [] (bakOf T) = some [9] := by
+  decide +kernel
+
+/-- What goes wrong if the backup were taken *after* the target is opened for writing (the
+mutation `copy2` after `open(…, 'w')`): a fault between the two loses the original. -/
+example : let bad := [Step.creatTrunc T] ++ backupSteps true T [[]] ++ [Step.append T [7], .close T]
+    runFault fs0 bad 1 [] T = some [] ∧ runFault fs0 bad 1 [] (bakOf T) = some [9] := by
+  decide +kernel
+
+/-- a pre-write exit: `--check` fails (status 20) after the document was read. -/
+example : (runSet ⟨true, true, true, true, false, true, true, true, true⟩ fs0 false true T [[1, 2, 3]] [[7]] []) =
+    ⟨20, .check, [.openRead T]⟩ := by decide +kernel
+
+end Ypv.C17
